@@ -22,7 +22,7 @@ from ref import docspec
 
 PROPERTY = "C03"
 LEVEL = "model_checking"
-RULE = ("explicit enumeration of document constructions: root variant x wrapper chain (each wrapper from a 23-entry menu) "
+RULE = ("explicit enumeration of document constructions: root variant x wrapper chain (each wrapper from a 25-entry menu) "
         "x leaf (34 shape variants) inside, with probe leaves before and after the wrapped subtree, x configurations "
         "(reify, ppi, caller size, caller transform); model state = the reference renderer's state (CTM, viewport size, "
         "use stack) at each element; a transition = one element start; every rendered shape is compared.  Non-trivial: "
@@ -102,6 +102,9 @@ WRAPPERS = [
     ("g-rotate", '<g transform="rotate(30)">', '</g>'),
     ("g-scale", '<g transform="scale(2,3)">', '</g>'),
     ("g-skew", '<g transform="skewX(20)">', '</g>'),
+    # the transform given through the style attribute / a style rule instead of the presentation attribute
+    ("g-style-tf", '<g style="transform: scale(2,3)">', '</g>'),
+    ("g-rule-tf", '<g class="tfrule">', '</g>'),
     ("svg-vb", '<svg x="10" y="20" width="40" height="30" viewBox="2 1 20 10">', '</svg>'),
     ("svg-par-novb", '<svg x="1" y="2" width="60" height="45" preserveAspectRatio="none">', '</svg>'),
     ("svg-novb", '<svg x="10" y="20" width="40" height="30">', '</svg>'),
@@ -147,7 +150,7 @@ def build_doc(root, chain, leaf, counter=None):
         return o + inner + c
     body = wrap(leaf.format(id="leaf"), list(chain))
     d = ("<defs>%s</defs>" % "".join(defs)) if defs else ""
-    unref = '<defs><rect id="unref" x="0" y="0" width="9" height="9"/></defs>'
+    unref = '<style>.tfrule{transform:translate(5,7) rotate(30)}</style><defs><rect id="unref" x="0" y="0" width="9" height="9"/></defs>'
     return ('<svg xmlns="http://www.w3.org/2000/svg" xmlns:xlink="http://www.w3.org/1999/xlink" %s>%s%s%s%s%s</svg>'
             % (root, unref, d, PROBE_BEFORE, body, PROBE_AFTER))
 
@@ -187,8 +190,8 @@ class Documents(SubCheck):
             self.caps_hit = ["depth-3 chains: 6-wrapper core x 3 roots x 9 leaves x 3 configurations (not the full product)"]
         else:
             lv = [0, 1, 2, 3, 5, 6, 8, 10, 11, 14, 15, 17, 19, 21, 23, 24, 30]
-            parts.append(Product([0, 3, 4, 5], chains2, lv, [1000, 1001, 1002, 1003]))
-            self.caps_hit = ["depth-2 chains: 4 roots x 17 leaves x 4 pairwise-covering configurations (full product on depth <= 1)"]
+            parts.append(Product([0, 4, 5], chains2, lv, [1000, 1001, 1002, 1003]))
+            self.caps_hit = ["depth-2 chains: 3 roots x 17 leaves x 4 pairwise-covering configurations (full product on depth <= 1)"]
         self.space = Concat(*parts)
         self.bounds = dict(roots=len(ROOTS), wrappers=len(WNAMES), leaves=len(LEAVES), configs_full=len(CONFIGS_FULL),
                            depth=3 if tier == "thorough" else 2)
